@@ -42,6 +42,7 @@ type evJ struct {
 	Files    []rfJ   `json:"files"`
 	Error    *B      `json:"error"`
 	Features *uint64 `json:"features"`
+	Bidi     bool    `json:"bidi"` // exec: the AST handed to the module records dependents
 }
 
 func newEv(t string) evJ {
@@ -138,6 +139,16 @@ func (m *recMod) Execute(targets map[string]pgs.File, pkgs map[string]pgs.Packag
 	}
 	sort.Strings(ts)
 	sort.Strings(ps)
+	// was the AST built bidirectionally? (every file declares N with a field of message type M)
+	for _, p := range pkgs {
+		for _, f := range p.Files() {
+			for _, msg := range f.AllMessages() {
+				if len(msg.Dependents()) > 0 {
+					ev.Bidi = true
+				}
+			}
+		}
+	}
 	for _, t := range ts {
 		ev.Targets = append(ev.Targets, toB(t))
 	}
@@ -153,7 +164,61 @@ func (m *recMod) Execute(targets map[string]pgs.File, pkgs map[string]pgs.Packag
 			m.ctx = m.ctx.PushDir("sub")
 		}
 	}
+	if m.idx%2 == 1 {
+		return viaModuleBase(m.arts)
+	}
 	return m.arts
+}
+
+// viaModuleBase hands the artifacts over the way module authors usually do: through the Add* /
+// Overwrite* helpers of an embedded pgs.ModuleBase, returning its Artifacts().
+func viaModuleBase(arts []pgs.Artifact) []pgs.Artifact {
+	b := &pgs.ModuleBase{}
+	for _, a := range arts {
+		switch x := a.(type) {
+		case pgs.GeneratorFile:
+			if x.Overwrite {
+				b.OverwriteGeneratorFile(x.Name, x.Contents)
+			} else {
+				b.AddGeneratorFile(x.Name, x.Contents)
+			}
+		case pgs.GeneratorTemplateFile:
+			if x.Overwrite {
+				b.OverwriteGeneratorTemplateFile(x.Name, x.Template, x.Data)
+			} else {
+				b.AddGeneratorTemplateFile(x.Name, x.Template, x.Data)
+			}
+		case pgs.GeneratorAppend:
+			b.AddGeneratorAppend(x.FileName, x.Contents)
+		case pgs.GeneratorTemplateAppend:
+			b.AddGeneratorTemplateAppend(x.FileName, x.Template, x.Data)
+		case pgs.GeneratorInjection:
+			b.AddGeneratorInjection(x.FileName, x.InsertionPoint, x.Contents)
+		case pgs.GeneratorTemplateInjection:
+			b.AddGeneratorTemplateInjection(x.FileName, x.InsertionPoint, x.Template, x.Data)
+		case pgs.CustomFile:
+			if x.Overwrite {
+				b.OverwriteCustomFile(x.Name, x.Contents, x.Perms)
+			} else {
+				b.AddCustomFile(x.Name, x.Contents, x.Perms)
+			}
+		case pgs.CustomTemplateFile:
+			if x.Overwrite {
+				b.OverwriteCustomTemplateFile(x.Name, x.Template, x.Data, x.Perms)
+			} else {
+				b.AddCustomTemplateFile(x.Name, x.Template, x.Data, x.Perms)
+			}
+		case pgs.GeneratorError:
+			b.AddError(x.Message)
+		default:
+			b.AddArtifact(a)
+		}
+	}
+	out := b.Artifacts()
+	if again := b.Artifacts(); len(again) != 0 { // "subsequent calls return nil until more artifacts are added"
+		out = append(out, again...)
+	}
+	return out
 }
 
 type c13Engine struct{}
@@ -173,8 +238,15 @@ func (c13Engine) Run(raw json.RawMessage) (interface{}, error) {
 		req.FileToGenerate = append(req.FileToGenerate, t.String())
 	}
 	for _, f := range in.Files {
+		scope := ""
+		if len(f[1]) > 0 {
+			scope = "." + f[1].String()
+		}
 		fd := &descriptor.FileDescriptorProto{Name: proto.String(f[0].String()), Syntax: proto.String("proto3"),
-			MessageType: []*descriptor.DescriptorProto{{Name: proto.String("M")}}}
+			MessageType: []*descriptor.DescriptorProto{{Name: proto.String("M")},
+				{Name: proto.String("N"), Field: []*descriptor.FieldDescriptorProto{{Name: proto.String("m"), Number: proto.Int32(1),
+					Label: descriptor.FieldDescriptorProto_LABEL_OPTIONAL.Enum(), Type: descriptor.FieldDescriptorProto_TYPE_MESSAGE.Enum(),
+					TypeName: proto.String(scope + ".M")}}}}}
 		if len(f[1]) > 0 {
 			fd.Package = proto.String(f[1].String())
 		}
